@@ -153,6 +153,12 @@ def symstack_sources():
                 else:
                     body = "s\tset %s\n\tpushv st,s\ns\tset %s\n" % (v1, v2)  # never popped
                 out.append("\tcpu 68000\n" + body + "xq2p\tset fwq2p\nfwq2p\tequ 5\n")
+    # user-defined functions whose definitions call themselves, each other, or nest deeply without recursion
+    for body in ["f\tfunction x,f(x)+1\n\tdc.b f(1)\n", "f\tfunction x,g(x)\ng\tfunction x,f(x+1)\n\tdc.b g(2)\n",
+                 "f\tfunction x,y,f(y,x)\n\tdc.b f(1,2)\n", "f\tfunction x,x+1\n\tdc.b " + "f(" * 300 + "1" + ")" * 300 + "\n",
+                 "f\tfunction x,f(f(x))\n\tdc.b f(1)\n", "f\tfunction x,\"\\{f(x)}\"\n\tdc.b f(1)\n",
+                 "\tnestmax 0\nf\tfunction x,x+1\n\tdc.b f(f(f(1)))\n", "\tnestmax 3\nf\tfunction x,x+1\n\tdc.b f(f(f(f(f(1)))))\n"]:
+        out.append("\tcpu 68000\n" + body)
     return out
 
 
@@ -448,7 +454,9 @@ OPT_SWARM = [["-L"], ["-u"], ["-C"], ["-s"], ["-g", "MAP"], ["-g", "NOICE"], ["-
              ["-n"], ["-A"], ["-U"], ["-relaxed"], ["-compmode"], ["-maxerrors", "3"], ["-x", "-x"], ["-E", "!1"],
              ["-gnuerrors"], ["-a"], ["-c"], ["-p"], ["-h"], ["-l"], ["-Werror"], ["-t", "3"], ["-I"],
              # defined symbols given and taken away again on the command line
-             ["-D", "FOO"], ["+D", "BAR"], ["-D", "FOO,BAZ=3"], ["+D", "QUX,FOO"], ["-D", "X=1/0"], ["+D", "FOO"], ["-D", ""], ["+D", ","]]
+             ["-D", "FOO"], ["+D", "BAR"], ["-D", "FOO,BAZ=3"], ["+D", "QUX,FOO"], ["-D", "X=1/0"], ["+D", "FOO"], ["-D", ""], ["+D", ","],
+             # include path entries given and taken away again
+             ["-i", "/w/inc:/w"], ["+i", "/w/inc"], ["+i", "/nowhere"], ["+i", "/sim/inc:/w"], ["-i", ""], ["+i", ""]]
 
 
 # every report the assembler can write about a program, at once (listing with usage, cross reference and section lists,
@@ -616,6 +624,8 @@ def plan(tier, seed):
             cases.append({"gen": "symfault", "test": t.name, "sample": 20, "seed": mix(seed, "symf", t.name)})
     # E13 symbol stack x kinds of value
     cases.append({"gen": "symstack"})
+    # E15 command lines of many arguments, option lists that accumulate
+    cases.append({"gen": "manyargs"})
     # E14 section-local declarations
     for k in range(12 if thorough else 2):
         cases.append({"gen": "secdecl", "n": 250 if thorough else 150, "seed": mix(seed, "secdecl", k)})
@@ -1237,6 +1247,28 @@ def _run_case(sim, case, acc):
         for i, src in enumerate(srcs):
             run_one(sim, acc, "asl", sc_asl(src, cpu=10), "E13 symbol stack %d" % i, "symbol-stack")
         acc.sample = {"space": "E13", "programs": len(srcs)}
+    elif g == "manyargs":
+        refs = ref_files(sim)
+        ref = refs[sorted(refs)[0]]
+        nums = lambda a, b: ",".join(str(i) for i in range(a, b))
+        for n in (200, 254, 255, 256, 257, 258, 300, 1000):
+            run_one(sim, acc, "asl", sc_asl("\tcpu z80\n\tnop\n", ["-q"] * n, cpu=10), "E15 asl with %d options" % n, "many-arguments")
+            run_one(sim, acc, "asl", dict(argv=["-q"] + ["a.asm"] * n, cwd="/w", disk={"/w/a.asm": b"\tcpu z80\n\tnop\n"}, env={"LANG": "C"}, cpu=20),
+                    "E15 asl with %d source arguments" % n, "many-arguments")
+            for prog, tail in (("plist", []), ("p2bin", ["out.bin"]), ("p2hex", ["out.hex"]), ("pbind", ["out.p"]), ("alink", ["out.p"])):
+                run_one(sim, acc, prog, sc_tool(prog, ["f.p"] * n + tail, ref), "E15 %s with %d file arguments" % (prog, n), "many-arguments")
+            for prog, tail in (("p2bin", ["f.p", "out.bin"]), ("p2hex", ["f.p", "out.hex"]), ("pbind", ["f.p", "out.p"])):
+                run_one(sim, acc, prog, sc_tool(prog, tail + ["-f", "1"] * (n // 2), ref), "E15 %s with %d options" % (prog, n), "many-arguments")
+        # filter lists given piecewise add up; every header byte value at most once
+        for prog, tail in (("p2bin", ["f.p", "out.bin"]), ("p2hex", ["f.p", "out.hex"]), ("pbind", ["f.p", "out.p"])):
+            for lists in ([nums(0, 80), nums(80, 160), nums(160, 256)], [nums(0, 60), nums(60, 101)], [nums(0, 60), nums(40, 100), nums(90, 130)],
+                          [nums(0, 70)] * 3):
+                argv = list(tail)
+                for l in lists:
+                    argv += ["-f", l]
+                run_one(sim, acc, prog, sc_tool(prog, argv, ref), "E15 %s filter lists of %s entries" % (prog, "+".join(str(l.count(",") + 1) for l in lists)), "many-arguments")
+                run_one(sim, acc, prog, sc_tool(prog, argv + ["+f", nums(0, 50)], ref), "E15 %s filter lists with removal" % prog, "many-arguments")
+        acc.sample = {"space": "E15"}
     elif g == "secdecl":
         rng = Rng(case["seed"])
         for i in range(case["n"]):
@@ -1248,6 +1280,9 @@ def _run_case(sim, case, acc):
             src = longline_source(n, case["shape"])
             for opts in ([], ["-L", "-P", "-M"]):
                 run_one(sim, acc, "asl", sc_asl(src, opts, cpu=10), "E12 %s line of %d characters" % (case["shape"], n), "line-length")
+            # the same line in a listing with a page width: the listing writer expands tabs and folds it
+            paged = src.replace("\n", "\n\tpage %d,%d\n" % ((60, 80) if n & 1 else (0, 255 if n & 2 else 5)), 1)
+            run_one(sim, acc, "asl", sc_asl(paged, ["-L"], cpu=10), "E12 %s line of %d characters, PAGE with a width" % (case["shape"], n), "line-length")
         acc.sample = {"space": "E12", "shape": case["shape"], "lengths": len(LL_LENGTHS)}
     elif g == "fileread":
         stmts = fileread_cases()
